@@ -137,6 +137,9 @@ def sign_req(key_name, pub_key, signer) -> tuple[FormalName, VarBinaryStr]:
 
 
 def derive_cert(key_name, issuer_id, pub_key, signer, start_time, expire_sec) -> tuple[FormalName, VarBinaryStr]:
+    if start_time.tzinfo is not None:
+        # The lifetime is added to the instant, not to the wall clock of the start time's zone (they differ across a DST change)
+        start_time = start_time.astimezone(UTC)
     end_time = start_time + timedelta(seconds=expire_sec)
     if isinstance(issuer_id, str):
         issuer_id = Component.from_str(issuer_id)
